@@ -77,8 +77,12 @@ class LinkModel(explorer.Model):
     def newref_targets(self, kind):
         '''Associations (index) in which *kind* is the referring class; only unphrased, non-reflexive ones (which phrase
         a creation call links across is the subject of C03).'''
+        def shared(ai, a):      # a referential attribute formalising several associations carries one value: not generated
+            return any(bi != ai and b.src.upper() == a.src.upper() and set(b.skeys) & set(a.skeys)
+                       for bi, b in enumerate(self.schema.assocs))
         return [ai for ai, a in enumerate(self.schema.assocs)
-                if a.src.upper() == kind.upper() and a.src.upper() != a.tgt.upper() and not a.sphrase and not a.tphrase]
+                if a.src.upper() == kind.upper() and a.src.upper() != a.tgt.upper() and not a.sphrase and not a.tphrase
+                and not shared(ai, a)]
 
     def newref(self, w, op):
         '''m.new(kind, <referential attributes> = <identifying values of the chosen instances>).  A creation call whose
@@ -411,6 +415,7 @@ CAPS = {
     'i_two_single_refs': ({'A': 2, 'B': 1, 'C': 2}, {'A': 2, 'B': 2, 'C': 3}),
     'j_compound_key': ({'A': 2, 'B': 2}, {'A': 2, 'B': 3}),
     'k_1_1': ({'A': 2, 'B': 2}, {'A': 2, 'B': 3}),
+    'l_shared_referential': ({'A': 1, 'B': 2, 'C': 1}, {'A': 2, 'B': 2, 'C': 2}),
 }
 
 
